@@ -110,7 +110,9 @@ CLAIMED = {
                 "PIX, CM3, unsquash, VEF start). Damage the format can express (RAT overshoot, MGE terminator position, MAX short rows / bad first "
                 "byte / inconsistent length, PIX non-square, CM3 line count, VEF data length) is a loud exit. The command-line wrappers (argparse, files) are "
                 "outside the contracts: a static I/O frame rule (plain buffered reads, truncating writes) and a bounded stand-in (32 runs of main() on damaged "
-                "files, files and pipes) cover them, labelled bounded.",
+                "files, files and pipes) cover them, labelled bounded. 'The stream ends inside a token' can leave a complete output of the right size and has no "
+                "clause of its own: a bounded stand-in (150 generated files cut or changed at the places the formats make critical) runs with every check, labelled bounded. "
+                "The exploration has a wall-clock budget (600 s): a unit whose path tree does not close in time is reported as not decided, never as holding.",
                 level_note=_DEC_NOTE, technique="contract-based deductive verification with exceptional postconditions and variants, z3/cvc5"),
 }
 
